@@ -29,12 +29,15 @@ def expected_red(fn, skipna):
     return f
 
 
+PREC = [11]      # significant digits compared (float32 arrays: single precision arithmetic inside NumPy)
+
+
 def rnd(v, fn):
     v = float(v)
     if math.isnan(v):
         return ["nan"]
-    if fn in ROUND:
-        return ["r", float("%.11e" % v)]
+    if fn in ROUND or PREC[0] < 11:
+        return ["r", float("%.*e" % (PREC[0], v))]
     return core.canon_value(v)
 
 
@@ -136,7 +139,10 @@ class C08(Prop):
             arr["vkind"] = "f"
             shape = [len(a["labels"]) for a in arr["axes"]]
             arr["nan_at"] = nan_pattern(rng, shape, "some")
+            gen.dtype_variants(rng, arr)
             names = [a["name"] for a in arr["axes"]]
+            if FNS[k % len(FNS)] == "prod":
+                arr.pop("vdtype", None)
             yield {"op": "reduce", "array": arr, "fn": FNS[k % len(FNS)],
                    "axis": ["many", [["name", d] for d in rng.sample(names, rng.randint(2, rank))]], "skipna": rng.random() < 0.7}
         for _ in range(n):
@@ -148,6 +154,7 @@ class C08(Prop):
             arr["nan_at"] = nan_pattern(rng, shape, rng.choice(["none", "some", "fibre", "all", "some"])) if vk == "f" else []
             if rng.random() < 0.4:
                 arr["attrs_py"] = {"units": "K", "n": 2}
+            gen.dtype_variants(rng, arr)
             fn = rng.choice(FNS)
             if vk == "b" and fn in ("ptp", "var", "std", "mean", "median", "prod", "sum"):
                 fn = rng.choice(["all", "any", "min", "max"])
@@ -165,6 +172,8 @@ class C08(Prop):
                 yield {"op": "percentile", "array": arr, "axis": ax if (ax and ax[0] != "many") else ["pos", 0],
                        "pct": rng.choice([50, 25.0, [10, 50], [50], [0, 100, 50]])}
                 continue
+            if fn == "prod":
+                arr.pop("vdtype", None)       # (a product of a dozen values overflows single precision)
             yield {"op": "reduce", "array": arr, "fn": fn, "axis": ax, "skipna": rng.random() < 0.5}
 
     # ------------------------------------------------------------ implementation side
@@ -222,6 +231,7 @@ class C08(Prop):
         lean = ans["lib"]
         bad, prop_bad = [], []
         a = core.build_array(c["array"], 0)
+        PREC[0] = 5 if a.values.dtype == np.float32 else 11
         if c["op"] == "percentile":
             # axes bookkeeping of the mirror only for scalar pct; values straight from NumPy
             if "ok" in io:
